@@ -27,6 +27,7 @@ ASSUMPTIONS = [
     "limits: only compared when the exact reference sequence has numerically converged (|c(2K)-c(K)| < 1e-12 scale); otherwise inconclusive",
     "reference engine and laws as in C01",
 ]
+UNINIT_COUNTERFACTUAL = True   # worker: unattributed violations are re-run with explicit initial assignments (diagnose.attribute_uninit)
 TIMEOUT = {"quick": 20, "thorough": 150}
 DEADLINE = {"quick": 85, "thorough": 1000}
 MIN_DECIDING = {"quick": 15, "thorough": 200}
